@@ -1,5 +1,6 @@
 """C01 - decoding never returns anything but the original object.
-MC_Codec: exhaustive small model with the real rank oracle.  Trace_Codec: every call of the real Decoder in
+MC_Codec: exhaustive small model with the real rank oracle (+ liveness under a fair channel: MC_Codec_live.cfg);
+MC_Decode: "full rank => Gauss-Jordan on the received system returns the source octets" on the spec's own arithmetic.  Trace_Codec: every call of the real Decoder in
 generated histories (drops, duplicates, reordering, block interleaving, clone, continuation after completion,
 both APIs) is validated as a step of spec/Codec.tla, result bytes compared with the original."""
 import vlib
@@ -40,6 +41,12 @@ def run(chk):
     res = vlib.tlc('MC_Codec', cfg='MC_Codec.cfg' if chk.quick else 'MC_Codec_thorough.cfg', workers=8, xss='256m',
                    timeout=3000, tag='MC_Codec', xmx='4g' if chk.quick else '12g')
     vlib.expect_mc_ok(chk, res, 'MC_Codec')
+    # liveness under a fair channel + the decode theorem on the specification's own arithmetic (run side by side)
+    rs = vlib.tlc_parallel([dict(module='MC_Codec', cfg='MC_Codec_live.cfg', workers=4, xss='256m', timeout=3000, tag='MC_Codec[live]'),
+                            dict(module='MC_Decode', cfg='MC_Decode.cfg' if chk.quick else 'MC_Decode_thorough.cfg', workers=1,
+                                 xss='256m', timeout=3000, tag='MC_Decode')], max_parallel=2)
+    vlib.expect_mc_ok(chk, rs[0], 'MC_Codec_live')
+    vlib.expect_mc_ok(chk, rs[1], 'MC_Decode')
     okm = cc.replay_model_behaviours(chk, exe, 40 if chk.quick else 600)
     if chk.quick:
         jobs = cfg_jobs(QUICK_CFGS, 3, 3, 2, 'exact')
